@@ -199,6 +199,8 @@ DOCS = [
     ("role_unknown", "a {nosuchrole}`x` b\n"),
     ("topmatter", "---\na: [\n---\n\nbody\n"),
     ("topmatter", "---\nmyst:\n  nosuchfield: 1\n---\n\nbody\n"),
+    ("topmatter", "---\ndate: 2021-13-45\n---\n\nbody\n"),  # well-formed YAML whose constructor raises ValueError (no YAMLError)
+    ("topmatter", "---\n- a\n- b\n---\n\nbody\n"),  # front matter that is not a mapping
     ("substitution", "a {{ undefined_name }} b\n"),
     ("topmatter", "---\nsubstitutions:\n  key: value\n---\n\nbody {{ key }}\n"),
     ("topmatter", "---\nhtml_meta:\n  description: d\n---\n\nbody\n"),
